@@ -1048,6 +1048,9 @@ def group_nearby_members(
     out = np.full(len(group_key), -1)
     for i in range(len(group_key)):
         key = group_key[i]
+        if key < 0:
+            # null group key: belongs to no group and must not touch group state
+            continue
         current_value = values[i]
         if not seen[key]:
             seen[key] = True
